@@ -162,6 +162,9 @@ def check(ctx):
 
     dry_outputs = []
     for n in b.nodes('output'):
+        if not any(isinstance(a, ExtRef) and a.qualname == 'sys.stdout'
+                   for a in flat(n.data['stream'])):
+            continue          # the dry-run report goes to stdout; diagnostics do not count
         if any(g.dominates(x, n.id) for x in is_dry_nodes) or \
                 (is_dry_nodes and cut_c(b, g.entry, n.id, is_dry_nodes)):
             dry_outputs.append(n)
